@@ -24,7 +24,7 @@ from harness.translate import t_classes
 PID = "C13"
 HEADER = ("From Coq Require Import List String ZArith. Import ListNotations.\n"
           "From TT Require Import M_loader G_classes.\nOpen Scope string_scope.\nOpen Scope list_scope.\n"
-          "Definition S := schema_of class_aliases.\n")
+          "Definition SCH := schema_of class_aliases.\n")
 FUEL = 90
 K_NESTED = "C13:process_object:duplicate-id-nested-in-own-definition-accepted"
 
@@ -82,6 +82,10 @@ class Gen:
     def num(self, lo=0.25, hi=4.0):
         return self.rng.randrange(int(lo * 8), int(hi * 8) + 1) / 8.0
 
+    def ref(self, container, key):
+        # position of a reference string and how many definitions were complete when it is read
+        self.refs.append((container, key, len(self.done)))
+
     def pool(self, kinds):
         return [d for d in self.done if d[1] in kinds]
 
@@ -99,7 +103,7 @@ class Gen:
         cands = self.pool(kinds)
         if cands and (depth <= 0 or self.rng.random() < p_ref):
             container[key] = self.rng.choice(cands)[0]
-            self.refs.append((container, key))
+            self.ref(container, key)
             self.features.add("reference")
         else:
             container[key] = self.make(self.rng.choice(kinds), depth - 1)
@@ -266,7 +270,7 @@ class Gen:
         for _ in range(self.rng.randint(3, 4)):
             if avail and self.rng.random() < 0.3:
                 lst.append(avail.pop())
-                self.refs.append((lst, len(lst) - 1))
+                self.ref(lst, len(lst) - 1)
                 names.append(lst[-1])
             else:
                 t = self.mk_taxon(0)
@@ -325,7 +329,7 @@ class Gen:
                 if cands and self.rng.random() < 0.5:
                     c = self.rng.choice(cands)
                     d["taxa"] = c[0]
-                    self.refs.append((d, "taxa"))
+                    self.ref(d, "taxa")
                     names = c[2]
                 else:
                     t = self.mk_taxa(depth - 1)
@@ -370,7 +374,7 @@ class Gen:
                 self.features.add("nested-list")
             elif r < 0.12 and self.done:
                 top.append(rng.choice(self.done)[0])
-                self.refs.append((top, len(top) - 1))
+                self.ref(top, len(top) - 1)
                 self.features.add("top-level-reference")
             else:
                 top.append(self.make(rng.choice(kinds), rng.choice([1, 2, 2, 3, 3, 4])))
@@ -396,6 +400,8 @@ class Gen:
                             "dangling", "forward", "self", "no-id", "no-type", "bad-type", "non-object",
                             "missing-key", "dup-in-unprocessed"])
             defs = [d for d, _ in self.defs if isinstance(d.get("id"), str)]
+            if f == "dup-nested" and n > 1:
+                continue      # kept alone: what follows an accepted nested duplicate is unconstrained
             if f == "dup-sibling" and len(defs) >= 2:
                 a, b = rng.sample(defs, 2)
                 if "Taxon" in str(b.get("type", "")):
@@ -410,17 +416,16 @@ class Gen:
                 b = rng.choice(cands)
                 b["id"] = rng.choice(self.ancestors(b))["id"]
             elif f == "dangling" and self.refs:
-                c, k = rng.choice(self.refs)
+                c, k, _ = rng.choice(self.refs)
                 c[k] = self.fresh("nowhere")
-            elif f == "forward" and self.refs and len(self.done) >= 2:
-                c, k = rng.choice(self.refs)
-                order = [d[0] for d in self.done]
-                if c[k] in order and order.index(c[k]) + 1 < len(order):
-                    c[k] = rng.choice(order[order.index(c[k]) + 1:])
-                else:
+            elif f == "forward" and self.refs:
+                c, k, ndone = rng.choice(self.refs)
+                later = [d[0] for d in self.done[ndone:]]     # not complete when the reference is read
+                if not later:
                     continue
+                c[k] = rng.choice(later)
             elif f == "self":
-                cands = [(c, k) for c, k in self.refs if isinstance(c, dict) and "id" in c]
+                cands = [(c, k) for c, k, _ in self.refs if isinstance(c, dict) and "id" in c]
                 if not cands:
                     continue
                 c, k = rng.choice(cands)
@@ -432,7 +437,7 @@ class Gen:
             elif f == "bad-type" and defs:
                 rng.choice(defs)["type"] = rng.choice(["Nope", "torchtree.Nope", "nomodule.Thing"])
             elif f == "non-object" and self.refs:
-                c, k = rng.choice(self.refs)
+                c, k, _ = rng.choice(self.refs)
                 if isinstance(c, dict) and k in ("loc", "scale", "rate", "concentration"):
                     continue     # numbers are legal distribution / transform arguments
                 c[k] = rng.choice([None, 3, True, 2.5])
@@ -530,7 +535,23 @@ def coq_string(s):
     return '"' + s.replace('"', '""') + '"'
 
 
-def coq_json(j):
+class Interner:
+    """every distinct string becomes one named constant of the case file (string literals are by far
+    the most expensive thing for coqc to read)"""
+
+    def __init__(self):
+        self.names = {}
+
+    def __call__(self, s):
+        if s not in self.names:
+            self.names[s] = f"s{len(self.names)}"
+        return self.names[s]
+
+    def header(self):
+        return "".join(f"Definition {n} := {coq_string(s)}.\n" for s, n in self.names.items())
+
+
+def coq_json(j, S):
     if j is None:
         return "JNull"
     if j is True:
@@ -544,12 +565,46 @@ def coq_json(j):
         assert abs(j * 1000 - k) < 1e-9, j
         return f"(JFlt {C.zlit(k)})"
     if isinstance(j, str):
-        return f"(JStr {coq_string(j)})"
+        return f"(JStr {S(j)})"
     if isinstance(j, list):
-        return "(JArr [" + "; ".join(coq_json(x) for x in j) + "])"
+        return "(JArr [" + "; ".join(coq_json(x, S) for x in j) + "])"
     if isinstance(j, dict):
-        return "(JObj [" + "; ".join(f"({coq_string(k)}, {coq_json(v)})" for k, v in j.items()) + "])"
+        return "(JObj [" + "; ".join(f"({S(k)}, {coq_json(v, S)})" for k, v in j.items()) + "])"
     raise TypeError(type(j))
+
+
+def tok_json(j, out):
+    def s_(x):
+        out.append(len(x))
+        out.extend(ord(ch) for ch in x)
+    if j is None:
+        out.append(0)
+    elif j is True or j is False:
+        out.extend([1, 1 if j else 0])
+    elif isinstance(j, int):
+        out.extend([2, j])
+    elif isinstance(j, float):
+        out.extend([3, round(j * 1000)])
+    elif isinstance(j, str):
+        out.append(4)
+        s_(j)
+    elif isinstance(j, list):
+        out.extend([5, len(j)])
+        for x in j:
+            tok_json(x, out)
+    else:
+        out.extend([6, len(j)])
+        for k, v in j.items():
+            s_(k)
+            tok_json(v, out)
+    return out
+
+
+def fp_json(j):
+    h = 7
+    for t in tok_json(j, []):
+        h = (h * 1000003 + t + 1) % 2305843009213693951
+    return h
 
 
 # ------------------------------------------------------------------- implementation runner
@@ -820,19 +875,15 @@ def decode_case(flat):
     assert rd.num() == -1
     m_false = decode_show(rd)
     assert rd.num() == -1
-    same_rc = rd.num()
-    same_exp = rd.num()
+    fp_rc, exp_tag, fp_exp = rd.num(), rd.num(), rd.num()
     assert rd.i == len(flat)
-    return m_true, m_false, same_rc, same_exp
+    return m_true, m_false, fp_rc, (exp_tag, fp_exp)
 
 
-def coq_case(case, py_rc, py_exp):
-    j = coq_json(case["spec"])
-    r = coq_json(py_rc)
-    e = "None" if py_exp is None else ("(Some r)" if py_exp == py_rc else f"(Some {coq_json(py_exp)})")
-    return (f"let j := {j} in let r := {r} in "
-            f"show (load S true {FUEL}%nat j) ++ [(-1)%Z] ++ show (load S false {FUEL}%nat j) ++ "
-            f"[(-1)%Z; same_rc j r; same_expand {FUEL}%nat r {e}]")
+def coq_case(case, S):
+    return (f"let j := {coq_json(case['spec'], S)} in "
+            f"show (load SCH true {FUEL}%nat j) ++ [(-1)%Z] ++ show (load SCH false {FUEL}%nat j) ++ "
+            f"((-1)%Z :: fp_prepare {FUEL}%nat j)")
 
 
 # ------------------------------------------------------ where a holder keeps a slot's object
